@@ -1,5 +1,5 @@
-(* C07 - Data query expressions mean what the documentation says, and the parser / operator part of
-   C08 - No input can crash the debugger.  Statements only; proofs are in ProofsDqe.v. *)
+(* C07 - Data query expressions mean what the documentation says.  Statements only; proofs are in ProofsDqe.v.
+   The model (ModelDqe.v) follows /repo at HEAD (after commits 99f406a, 90a0582, 0b2cb8c, 4188407). *)
 From BS Require Import Model.Base.
 From W Require Import ModelDqe ProofsDqe.
 Open Scope N_scope.
@@ -8,8 +8,9 @@ Open Scope N_scope.
 
 (* The canonical text of every well-formed expression parses back to that expression.
    [wf_dqe]: non-empty variable paths; pointer-cast type made of type characters and address < 2^64;
-   slice bounds < 2^64; literals: -2^63 < int < 2^63, address < 2^64, float fraction a single digit or
-   not starting with 0, enum variant names not starting with `true`/`false`, struct literals non-empty. *)
+   slice bounds < 2^64; literals: -2^63 <= int < 2^63 (all of i64), address < 2^64, float fraction non-empty,
+   enum variant not the word `true` / `false`, struct literals non-empty.
+   (_old: also excluded i64::MIN, fractions with a leading zero, variants starting with true/false) *)
 Theorem C07_parse_print_wf : forall e, wf_dqe e = true -> parse (print e) = Ok e.
 Proof. exact parse_print. Qed.
 
@@ -17,15 +18,24 @@ Theorem C07_print_injective : forall e1 e2,
   wf_dqe e1 = true -> wf_dqe e2 = true -> print e1 = print e2 -> e1 = e2.
 Proof. exact print_injective. Qed.
 
-(* Without well-formedness the statement is false: m[trueish] and m[1.05] are rejected,
-   m[-9223372036854775808] panics, m[{}] is read as the empty array literal. *)
-Theorem C07_parse_print_unrestricted_refuted :
+Theorem C07_parse_literal_print : forall l, wf_lit l = true -> parse_literal (print_lit l) = Ok l.
+Proof. exact parse_literal_print. Qed.
+
+(* the former counter-examples m[trueish], m[1.05], m[-9223372036854775808] are well-formed and round-trip *)
+Theorem C07_parse_print_repaired :
   let e1 := Index w_a (LEnum (false, [s_trueish]) None) in
   let e2 := Index w_a (LFloat false 1 [0; 5]) in
   let e3 := Index w_a (LInt (- 9223372036854775808)) in
+  wf_dqe e1 = true /\ wf_dqe e2 = true /\ wf_dqe e3 = true /\
+  parse (print e1) = Ok e1 /\ parse (print e2) = Ok e2 /\ parse (print e3) = Ok e3.
+Proof. exact parse_print_repaired. Qed.
+
+(* what remains outside: an empty struct literal has no text (`{}` is the empty array), and the words
+   true / false are booleans, not enum variants *)
+Theorem C07_parse_print_unrestricted_refuted :
   let e4 := Index w_a (LAssoc []) in
-  parse (print e1) = Err 0 /\ parse (print e2) = Err 0 /\
-  parse (print e3) = Panic SITE_EXPR_NEG /\ parse (print e4) = Ok (Index w_a (LArr [])).
+  let e5 := Index w_a (LEnum (false, [s_true]) None) in
+  parse (print e4) = Ok (Index w_a (LArr [])) /\ parse (print e5) = Ok (Index w_a (LBool true)).
 Proof. exact parse_print_unrestricted_refuted. Qed.
 
 (* `Display for Literal` (dqe.rs) cannot be parsed back: quoted struct keys, 1.0 printed as 1 *)
@@ -36,34 +46,34 @@ Theorem C07_literal_display_reparse_refuted :
   wf_lit l2 = true /\ parse_literal (display_lit l2) = Ok (LInt 1).
 Proof. exact literal_display_reparse_refuted. Qed.
 
-(* 18446744073709551615 typed as a key means -1 *)
+(* integers: below 2^63 the text is the value, `-n` down to -2^63; 18446744073709551615 means -1 (by design) *)
+Theorem C07_int_literal_pos : forall n, n < P63 -> int_literal false n = Ok (Z.of_N n).
+Proof. exact int_literal_pos. Qed.
+Theorem C07_int_literal_neg : forall n, n <= P63 -> int_literal true n = Ok (- Z.of_N n)%Z.
+Proof. exact int_literal_neg. Qed.
 Theorem C07_int_literal_value_refuted :
   exists n, n < P64 /\ int_literal false n = Ok (-1)%Z /\ Z.of_N n <> (-1)%Z.
 Proof. exact int_literal_value_refuted. Qed.
 
 (** ** Operators *)
 
-(* a[l..r] is elements l .. r-1 (clamped at the end; absent bounds are 0 and len) when l <= len, l <= r *)
+(* a[l..r] is elements min(l,len) .. min(r,len)-1 for ALL bounds (absent bounds are 0 and len), empty when r <= l
+   (_old: only for l <= len and l <= r; outside, a panic) *)
 Theorem C07_slice : forall items left right,
-  let l := match left with Some l => l | None => 0 end in
-  let r := match right with Some r => r | None => N.of_nat (length items) end in
-  l <= N.of_nat (length items) -> l <= r ->
   array_slice items left right = spec_slice_opt items left right.
 Proof. exact array_slice_spec. Qed.
+Theorem C07_slice_elements : forall items l r i,
+  nth_error (spec_slice items l r) i =
+  if (N.of_nat i <? N.min r (N.of_nat (length items)) - N.min l (N.of_nat (length items)))
+  then nth_error items (N.to_nat (N.min l (N.of_nat (length items))) + i) else None.
+Proof. exact spec_slice_elements. Qed.
+Theorem C07_slice_empty : forall items l r, r <= l -> spec_slice items l r = [].
+Proof. exact spec_slice_empty. Qed.
 
-(* ... and outside exactly that domain it panics *)
-Theorem C08_slice_panics_iff : forall items left right,
-  let l := match left with Some l => l | None => 0 end in
-  is_panic (array_slice items left right) = true <->
-  (N.of_nat (length items) < l \/ exists r, right = Some r /\ r < l).
-Proof. exact array_slice_panics_iff. Qed.
-
-Theorem C08_slice_no_panic_refuted :
-  w_eval (Slice w_var (Some 5) (Some 2)) w_arr = Panic SITE_DRAIN /\
-  w_eval (Slice w_var (Some 5) None) w_arr = Panic SITE_DRAIN /\
-  w_eval (Slice w_var (Some 3) (Some 2)) w_arr = Panic SITE_SLICE_SUB /\
-  w_spec_eval (Slice w_var (Some 5) (Some 2)) w_arr = Ok (Some (VArray (mk_meta (Some 100) (Some 7)) (Some []))).
-Proof. exact eval_slice_no_panic_refuted. Qed.
+(* the evaluator computes the documented meaning: for every expression, value and environment *)
+Theorem C07_eval_is_spec_eval : forall mem mem_items ty_size ptr_type float_eq e root,
+  eval mem mem_items ty_size ptr_type float_eq e root = spec_eval mem mem_items ty_size ptr_type float_eq e root.
+Proof. exact eval_is_spec_eval. Qed.
 
 (* a[l..r][i] = a[l+i] *)
 Theorem C07_index_of_slice : forall mem mem_items ty_size ptr_type float_eq e root m items l r i,
@@ -96,7 +106,7 @@ Theorem C07_deref_address : forall mem mem_items ty_size ptr_type float_eq e roo
   m_addr (vmeta x) = Some a -> m_ty (vmeta x) = Some t -> mem a t = Some x ->
   eval mem mem_items ty_size ptr_type float_eq (Deref (Address e)) root = Ok (Some x).
 Proof. exact deref_address. Qed.
-(* ... which a slice does not satisfy: it keeps the address and type of the whole container *)
+(* ... which a slice does not satisfy: it keeps the address and type of the whole container (still true at HEAD) *)
 Theorem C07_deref_address_refuted :
   exists e x a t,
     w_mem 100 7 = Some w_arr /\ vmeta w_arr = mk_meta (Some 100) (Some 7) /\
@@ -121,49 +131,25 @@ Proof. exact slice_wrong_kind. Qed.
 Theorem C07_deref_wrong_kind : forall mem v, deref_kind v = false -> v_deref mem v = None.
 Proof. exact deref_wrong_kind. Qed.
 
-(** ** C08: panics reachable from user text *)
-
-(* every numeric argument of a console command: panic-free exactly below its bound *)
-Theorem C08_num_arg_ok : forall k n, n < num_arg_bound k -> conv_num_arg k n = Ok n.
-Proof. exact conv_num_arg_ok. Qed.
-Theorem C08_num_arg_no_panic_refuted : forall k,
-  exists n, conv_num_arg k n = Panic (num_arg_site k) /\ n = num_arg_bound k /\
-            forall m, m < n -> conv_num_arg k m = Ok m.
-Proof. exact conv_num_arg_no_panic_refuted. Qed.
-
-Theorem C08_int_literal_panics_iff : forall neg n,
-  is_panic (int_literal neg n) = true <-> (P64 <= n \/ (neg = true /\ n = P63)).
-Proof. exact int_literal_panics_iff. Qed.
-
-(* the DQE parser never panics on ANY token list whose integers are < 2^63 and hex numbers < 2^64 *)
-Theorem C08_parse_no_panic : forall ts, small ts = true -> is_panic (parse ts) = false.
-Proof. exact parse_no_panic. Qed.
-Theorem C08_parse_no_panic_refuted :
-  parse [w_id 120; TLBrack; TInt P64; TRBrack] = Panic SITE_EXPR_INT /\
-  parse [w_id 120; TLBrack; TMinus; TInt P63; TRBrack] = Panic SITE_EXPR_NEG /\
-  parse [w_id 120; TLBrack; TDotDot; TInt P64; TRBrack] = Panic SITE_EXPR_USIZE /\
-  parse [w_id 120; TLBrack; THex P64; TRBrack] = Panic SITE_HEX /\
-  parse [TLParen; w_id 120; TRParen; THex P64] = Panic SITE_HEX.
-Proof. exact parse_no_panic_refuted. Qed.
-
-(* evaluation of an expression without a slice operator never panics *)
-Theorem C08_eval_no_slice_no_panic : forall mem mem_items ty_size ptr_type float_eq e root,
-  has_slice e = false -> is_panic (eval mem mem_items ty_size ptr_type float_eq e root) = false.
-Proof. exact eval_no_slice_no_panic. Qed.
-
-(** ** Non-vacuity: a deep well-formed expression using every construct round-trips, and the checkers
-    give verdict 0 on an agreeing case and 2 on a panicking one *)
+(** ** Non-vacuity: a deep well-formed expression using every construct (incl. a key named `trueish`, a
+    fraction with a leading zero and i64::MIN) round-trips; the checkers give verdict 0 on agreeing cases
+    and 2 on a panic *)
 Definition ex_e : dqe :=
   Address (Slice (Index (Field (Deref (Canonic (Var (true, [[97]; [98]])))) (FNum 0))
-                        (LEnum (false, [[83]]) (Some (LAssoc [((false, [[107]]), Some (LArr [Some (LInt (-5)); None; Some (LFloat true 1 [5])]));
-                                                               ((false, [[116; 114; 117; 101]]), None)]))))
+                        (LEnum (false, [s_trueish])
+                           (Some (LAssoc [((false, [[107]]), Some (LArr [Some (LInt (- 9223372036854775808)); None;
+                                                                         Some (LFloat true 1 [0; 5])]));
+                                          ((false, [[116; 114; 117; 101]]), None)]))))
                  (Some 1) None).
 Example C07_example :
   wf_dqe ex_e = true /\ parse (print ex_e) = Ok ex_e /\
   wf_dqe (Field (PtrCast [TStar; TId [99]; TId [84]] 4096) (FName [120])) = true /\
   dqe_parse_check (mk_parse_case (print ex_e) (Some ex_e) (PO_ok ex_e)) = 0 /\
+  dqe_parse_check (mk_parse_case [w_id 120; TLBrack; TInt P64; TRBrack] None PO_reject) = 0 /\
   dqe_parse_check (mk_parse_case [w_id 120; TLBrack; TInt P64; TRBrack] None PO_panic) = 2 /\
   dqe_eval_check (mk_eval_case w_arr (Index (Slice w_var (Some 1) (Some 3)) (LInt 0)) [] [] [] [] []
                                (EO_value (Some (w_s 11)))) = 0 /\
+  dqe_eval_check (mk_eval_case w_arr (Slice w_var (Some 5) (Some 2)) [] [] [] [] []
+                               (EO_value (Some (VArray (mk_meta (Some 100) (Some 7)) (Some []))))) = 0 /\
   dqe_eval_check (mk_eval_case w_arr (Slice w_var (Some 5) (Some 2)) [] [] [] [] [] EO_panic) = 2.
 Proof. repeat split; vm_compute; reflexivity. Qed.
